@@ -179,6 +179,13 @@ func Canary() {
 }
 func Yield(site string)              { yield(site) }
 func Go(name string, f func())       { spawn(name, f) }
+
+// YieldVal is a pre-emption point between the return of a call and the use of its result
+// inside one statement (inserted by the instrumenter around nested call arguments).
+func YieldVal[T any](site string, v T) T {
+	yield(site)
+	return v
+}
 func Quiesce()                       { quiesce() }
 func Crashed() bool                  { return crashed() }
 func Symbolic() bool                 { return false }
